@@ -345,6 +345,7 @@ def _flag_set_unconditionally(r, f, facts, flag):
     """the flag constant is part of the initial value of, or or-ed on all paths into, parameters.flags"""
     eb = ExprBuilder(f, multi='phi')
     hits = []
+    bit0 = facts.const('io_uring::libc::' + flag)
     for loc in f.locs():
         if f.is_term(loc):
             continue
@@ -353,6 +354,10 @@ def _flag_set_unconditionally(r, f, facts, flag):
             continue
         for op in _ops_deep(s['rv']):
             if op.get('k') == 'const' and (op.get('def') or '').endswith('::' + flag):
+                hits.append(loc)
+            elif op.get('k') == 'const' and op.get('def') and not op['def'].startswith('io_uring::libc::') and isinstance(f.cval(op), int) \
+                    and not isinstance(f.cval(op), bool) and bit0 and f.cval(op) & bit0:
+                # a named constant of the crate whose value contains the flag (`const ALWAYS: u32 = SUBMIT_ALL | NO_SQARRAY`)
                 hits.append(loc)
     if not r.require(bool(hits), 'build_sys/' + flag, '%s is never used in build_sys' % flag, f.where()):
         return
